@@ -1,4 +1,35 @@
 ------------------------------- MODULE MC_Wal -------------------------------
+(* Model-checking wrapper of Wal.tla.                                        *)
+(*                                                                           *)
+(* Vacuity witnesses without TLC's -coverage (whose start-up walk of the      *)
+(* semantic graph is super-linear in the nesting of this specification's     *)
+(* definitions): every worker prints "ACT|<action>" the first time it takes   *)
+(* an action; bin/check requires every action listed in the recipe to have    *)
+(* been printed by at least one worker.                                       *)
 EXTENDS Wal
-(* state constraint / view helpers for the model-checking configurations *)
+
+ActNames == << "CallBegin", "StepEntry", "StepWrite", "StepFlush", "StepFsync", "StepDirSync", "StepOpenNext",
+               "StepCreate", "StepSetLen", "StepUnlink", "StepMem", "StepPromise", "StepReturn",
+               "CrashProcess", "CrashPower", "Restart", "Open", "OpenFailed" >>
+
+StepName(kind) ==
+  CASE kind = "ENTRY" -> "StepEntry" [] kind = "W" -> "StepWrite" [] kind = "FL" -> "StepFlush"
+    [] kind = "FS" -> "StepFsync" [] kind = "DS" -> "StepDirSync" [] kind = "OP" -> "StepOpenNext"
+    [] kind = "CR" -> "StepCreate" [] kind = "SL" -> "StepSetLen" [] kind = "UL" -> "StepUnlink"
+    [] kind = "MEM" -> "StepMem" [] kind = "PROMISE" -> "StepPromise" [] kind = "RET" -> "StepReturn"
+
+(* which action led from the unprimed to the primed state *)
+ActTaken ==
+  IF mode = "Ready" /\ mode' = "Closed" THEN
+       (IF ncrash' > ncrash THEN (IF lastLoss' = "power" THEN "CrashPower" ELSE "CrashProcess") ELSE "Restart")
+  ELSE IF mode = "Closed" THEN (IF mode' = "Ready" THEN "Open" ELSE "OpenFailed")
+  ELSE IF todo = <<>> THEN "CallBegin"
+  ELSE StepName(Head(todo)[1])
+
+Index(name) == CHOOSE i \in 1..Len(ActNames) : ActNames[i] = name
+
+Note(name) == IF TLCGet(Index(name)) = 0 THEN PrintT("ACT|" \o name) /\ TLCSet(Index(name), 1) ELSE TRUE
+
+MCInit == Init /\ \A i \in 1..Len(ActNames) : TLCSet(i, 0)
+MCNext == Next /\ Note(ActTaken)
 =============================================================================
